@@ -158,11 +158,14 @@ class msg_version(MsgSerializable):
         f.write(struct.pack(b"<Q", self.nServices))
         f.write(struct.pack(b"<q", self.nTime))
         self.addrTo.stream_serialize(f, True)
-        self.addrFrom.stream_serialize(f, True)
-        f.write(struct.pack(b"<Q", self.nNonce))
-        VarStringSerializer.stream_serialize(self.strSubVer, f)
-        f.write(struct.pack(b"<i", self.nStartingHeight))
-        f.write(struct.pack(b"<B", self.fRelay))
+        if self.nVersion >= 106:
+            self.addrFrom.stream_serialize(f, True)
+            f.write(struct.pack(b"<Q", self.nNonce))
+            VarStringSerializer.stream_serialize(self.strSubVer, f)
+            if self.nVersion >= 209:
+                f.write(struct.pack(b"<i", self.nStartingHeight))
+        if self.nVersion >= 70001:
+            f.write(struct.pack(b"<B", self.fRelay))
 
     def __repr__(self):
         return "msg_version(nVersion=%i nServices=%i nTime=%s addrTo=%s addrFrom=%s nNonce=0x%016X strSubVer=%s nStartingHeight=%i fRelay=%r)" % (self.nVersion, self.nServices, time.ctime(self.nTime), repr(self.addrTo), repr(self.addrFrom), self.nNonce, self.strSubVer, self.nStartingHeight, self.fRelay)
